@@ -82,3 +82,13 @@ Proof.
   split; [|repeat split; reflexivity].
   constructor; [reflexivity|]. repeat constructor.
 Qed.
+
+(* labels that are ints, or floats equal to ints: (value, is_int).  After fix feb832d appending 1.0 to the
+   loc_is_iloc index 0,1,2 is rejected and nothing is left behind. *)
+Definition fl_eq (a b : Z * bool) : bool := fst a =? fst b.
+Definition fl_pos (a : Z * bool) : option Z := if snd a then Some (fst a) else None.
+Example ex_auto_nonint_rejected :
+  let s := M_inew_auto (Z * bool) [(0, true); (1, true); (2, true)] in
+  M_append (Z * bool) fl_eq fl_pos s (1, false) = (s, Err "KeyError"%string) /\
+  is_ok (snd (M_append (Z * bool) fl_eq fl_pos s (5, false))) = true.
+Proof. vm_compute. auto. Qed.
